@@ -194,6 +194,16 @@ func cmdAsmRandom(args []string) error {
 				src = append(src, srcLine{Op: pick([]string{"UP", "NEXT", "PREVIOUS"}), A: nosel, B: pick(syms)})
 			}
 		}
+		if nbatch > 0 && i%3 == 0 {
+			// the one batch group need not be last: ordinary instructions after it assemble as written, the group once
+			for k, na := 0, 1+rng.Intn(3); k < na; k++ {
+				if rng.Intn(2) == 0 {
+					src = append(src, srcLine{Op: "INCMP", A: pick(append(syms, "_", "^", ".")), B: choose()})
+				} else {
+					src = append(src, srcLine{Op: "MOVE", A: pick(syms)})
+				}
+			}
+		}
 		out.put(asmCase(src, rng))
 	}
 	summary(map[string]any{"cases": out.n})
